@@ -576,7 +576,12 @@ class Monitor:
                        cl, space.best_agent.position)
             elif finite_run and np.all(np.isfinite(space.best_agent.position)):
                 fv = self.raw(space.best_agent.position)
-                if not same(float(fv), float(space.best_agent.fit)):
+                b0 = getattr(self, 'best0', None)
+                other_obj = any(pr.get('objective') and pr['objective'] != self.cfg['objective'] for pr in self.cfg.get('prelude') or [])
+                if other_obj and b0 is not None and same(float(space.best_agent.fit), b0[0]) and eqarr(space.best_agent.position, b0[1]):
+                    pass        # the earlier tasks optimised ANOTHER objective: the inherited (best agent, best tree) pair legitimately
+                    #             survives until this task finds something below it (C12_task_histories: "or still the pair it started with")
+                elif not same(float(fv), float(space.best_agent.fit)):
                     self.v('C12', 'best-fit-not-f(best-position)', 'f(best_agent.position)=%r differs from best_agent.fit=%r (%s)' % (fv, space.best_agent.fit, when),
                            fv, space.best_agent.fit)
         for i, (t, a) in enumerate(zip(trees, space.agents)):
